@@ -107,6 +107,13 @@ func (g *Graph) Variant(r *rand.Rand) (string, []string) {
 	// --- IRI compaction strategy
 	mode := r.Intn(5) // 0 none, 1 prefix, 2 @vocab, 3 term definitions, 4 prefix + @base
 	useBase := mode == 4 || r.Intn(4) == 0
+	// "plain" family: context-free, flat, absolute IRIs, native scalars - the shape AMF itself emits - on which the
+	// remaining transformations (order, repetition, splitting, single values) are applied
+	plain := r.Intn(4) == 0
+	if plain {
+		mode, useBase = 0, false
+		mark("plain-flat-context-free")
+	}
 	ctx := &OObj{}
 	switch mode {
 	case 1, 4:
@@ -175,6 +182,9 @@ func (g *Graph) Variant(r *rand.Rand) (string, []string) {
 	placed := map[string]bool{}
 	embedDepth := r.Intn(6) // 0: flat
 	embedAlways := r.Intn(4) == 0
+	if plain {
+		embedDepth = 0
+	}
 	var render func(n *Node, depth int, path map[string]bool) *OObj
 	renderValue := func(v Value, depth int, path map[string]bool, render func(n *Node, depth int, path map[string]bool) *OObj) any {
 		if v.IsRef() {
@@ -189,7 +199,7 @@ func (g *Graph) Variant(r *rand.Rand) (string, []string) {
 			return o
 		}
 		// literal: value object or native JSON scalar
-		if r.Intn(2) == 0 {
+		if plain || r.Intn(2) == 0 {
 			mark("native-literals")
 			return v.Lit
 		}
@@ -266,6 +276,56 @@ func (g *Graph) Variant(r *rand.Rand) (string, []string) {
 			top = append(top, obj)
 		}
 	}
+	// --- a node object split in two objects with the same @id (each property stays whole in one of them)
+	for k := 0; k < len(top) && r.Intn(3) == 0; k++ {
+		idx := r.Intn(len(top))
+		o, ok := top[idx].(*OObj)
+		if !ok {
+			continue
+		}
+		var propIdx []int
+		for i, key := range o.Keys {
+			if key != "@id" && key != "@type" {
+				propIdx = append(propIdx, i)
+			}
+		}
+		if len(propIdx) < 2 {
+			continue
+		}
+		cut := 1 + r.Intn(len(propIdx)-1)
+		a, b := &OObj{}, &OObj{}
+		moved := map[int]bool{}
+		for _, i := range propIdx[cut:] {
+			moved[i] = true
+		}
+		var idVal any
+		for i, key := range o.Keys {
+			switch {
+			case key == "@id":
+				idVal = o.Vals[i]
+				a.Set(key, o.Vals[i])
+			case key == "@type":
+				if r.Intn(2) == 0 {
+					a.Set(key, o.Vals[i])
+				} else {
+					b.Set(key, o.Vals[i])
+				}
+			case moved[i]:
+				b.Set(key, o.Vals[i])
+			default:
+				a.Set(key, o.Vals[i])
+			}
+		}
+		nb := &OObj{}
+		nb.Set("@id", idVal)
+		for i, key := range b.Keys {
+			nb.Set(key, b.Vals[i])
+		}
+		top[idx] = a
+		pos := r.Intn(len(top) + 1)
+		top = append(top[:pos], append([]any{nb}, top[pos:]...)...)
+		mark("split-node-object")
+	}
 	// --- document shape
 	var doc any
 	hasCtx := len(ctx.Keys) > 0
@@ -289,6 +349,11 @@ func (g *Graph) Variant(r *rand.Rand) (string, []string) {
 		graphVal = top[0]
 	}
 	switch {
+	case plain:
+		d := &OObj{}
+		d.Set("@graph", graphVal)
+		mark("@graph-wrapper")
+		doc = d
 	case len(top) == 1 && r.Intn(3) == 0:
 		// the only top-level node object is the document itself
 		mark("root-node-object")
